@@ -149,3 +149,18 @@ Theorem C09_mapor_nk_stale_merge (H : list (oprec (mop oop))) :
   mmerge orswot_valops s1 s2 = s1 /\ mmerge orswot_valops s2 s1 = s1.
 Proof. exact (mapor_stale_merge_nk H). Qed.
 Print Assumptions C09_mapor_nk_stale_merge.
+
+(** Map<K1, Map<K2, Orswot>> when no key is ever removed: a duplicate op and a stale state leave the complete state unchanged
+    (proofs/MapMapOrswotNK.v) *)
+From Crdt Require Import model.Orswot model.Map spec.System spec.OrswotSpec spec.OrswotSystem spec.MapSpec spec.MapSystem spec.MapOrswotSpec spec.MapMapOrswotSpec spec.MapMapOrswotNKSpec proofs.MapMapOrswotNK.
+Theorem C09_map2_nk_dup_apply (H : list (oprec (mop (mop oop)))) :
+  m2hist_ok_nk H -> forall (s : cmap (cmap orswot)) (K : gset nat) (i : nat) (r : oprec (mop (mop oop))),
+  m2reach_nk H s K -> H !! i = Some r -> i ∈ K -> mapply vo2 s (op_val r) = s.
+Proof. exact (map2_dup_apply_nk H). Qed.
+Print Assumptions C09_map2_nk_dup_apply.
+
+Theorem C09_map2_nk_stale_merge (H : list (oprec (mop (mop oop)))) :
+  m2hist_ok_nk H -> forall (s1 : cmap (cmap orswot)) (K1 : gset nat) (s2 : cmap (cmap orswot)) (K2 : gset nat),
+  m2reach_nk H s1 K1 -> m2reach_nk H s2 K2 -> K2 ⊆ K1 -> mmerge vo2 s1 s2 = s1 /\ mmerge vo2 s2 s1 = s1.
+Proof. exact (map2_stale_merge_nk H). Qed.
+Print Assumptions C09_map2_nk_stale_merge.
